@@ -172,6 +172,8 @@ def check(w):
     if m.framing == 'cl' and got_cl != [str(len(m.body)).encode()]:
         out.append({'symptom': 'content_length_field_not_preserved', 'features': {},
                     'detail': dict(detail, got=got_cl, want=len(m.body))})
+    if m.framing == 'chunked' and got_cl:
+        out.append({'symptom': 'content_length_added_to_chunked_request', 'features': {}, 'detail': dict(detail, got=got_cl)})
     if m.framing == 'chunked' and got_te != [b'chunked']:
         out.append({'symptom': 'transfer_encoding_field_not_preserved', 'features': {}, 'detail': dict(detail, got=got_te)})
     # framing headers: at most one of each, and consistent (h11 already validated consistency)
